@@ -54,7 +54,7 @@ pub fn c06(tier: Tier, seed: u64) -> i32 {
     let acc = run_histories(
         seed,
         per_shard,
-        move |_r| HistCfg { ops: 120, pools: 3, allow_adaptive: true, lifecycle_ext: true, w_swap: 52, w_two_hop: 10, w_liq: 22, w_fees: 10, w_lifecycle: 4, w_clock: 3, w_setters: 3, ..Default::default() },
+        move |_r| HistCfg { ops: 120, pools: 3, allow_adaptive: true, spl_only: false, allow_transfer_fee: true, lifecycle_ext: true, w_swap: 52, w_two_hop: 10, w_liq: 22, w_fees: 10, w_lifecycle: 4, w_clock: 3, w_setters: 3, ..Default::default() },
         || vec![Box::new(C06) as Box<dyn Monitor>],
     );
     rep.acc = acc;
